@@ -110,7 +110,7 @@ func (s *scen) String() string {
 
 func main() {
 	c := vk.Init("C19")
-	c.Rule("scenario i: PRNG draws 0..5 outgoing handlers (for ALL types and for the types Y/0/3, registered before the session exists, before Session.Run or after it, each refusing on its k-th invocation or never), 0..5 incoming handlers (ALL, 1, V), up to 2 handlers registered while traffic is flowing (after their message types have been seen), 0..4 EventLogon handlers, an instrumented message store failing on the k-th Save or never, and 8..24 steps (application Send through the session, application Send through the handler with its own header and a sequence number used before or 0, lowering the outgoing counter and sending again, inbound TestRequest -> Heartbeat reply, inbound damaged message -> Reject, inbound application message; in a third of the scenarios a Logout and a new Logon of the peer in the second half); everything appends to one call log. Oracle per step: the handler chain equals the registration-order prefix up to the first refusal (ALL handlers before type handlers, the session's own Save at its registration position), a message is on Outgoing() iff the chain completed, it was saved successfully under its own 34 before, Send returned an error iff it was not transmitted, the bytes each outgoing handler could serialize equal the wire bytes; inbound ALL/type handler order likewise. Modifying-handler part: an outgoing handler stamps Text and SendingTime on the message and a handler behind it records what it is shown; the transmitted bytes equal what that last handler saw and carry the stamp. Batch part: SendBatch of 2..7 prepared messages with a failing save or a refusing ALL / type handler at a drawn position: that message is not transmitted, the call returns an error, everything transmitted was saved first. Resend part: 3..8 application sends of which some are refused by an ALL / type handler registered behind the session's store handler (the store holds them, they never left), then three ResendRequests over ranges covering their numbers: a refused message is on the wire neither at the send nor on behalf of a ResendRequest. Own-logout part: Session.Logout / Session.Stop while the store fails on the Logout's save or an ALL / type-5 handler refuses it: no Logout leaves. Removal part: the application registers 1..3 outgoing and 1..2 incoming handlers, hands one identifier back to RemoveOutgoingHandler / RemoveIncomingHandler, then 5 steps (sends and inbound TestRequests, optionally one failing save): whatever leaves was saved first, a failed save stops the message, the handlers that were not removed run in order (whether the removed one still runs is not judged). Queued part: buffered handler (4/8/16) whose Outgoing() is not read while 2..15 messages are sent (one message object re-used, optionally changed in place between sends, or fresh objects); after release every transmitted message equals what the outgoing ALL handler was shown and what the store holds under its number. distinct = scenario text; non-trivial = at least one refusal or failed save happened")
+	c.Rule("scenario i: PRNG draws 0..5 outgoing handlers (for ALL types and for the types Y/0/3, registered before the session exists, before Session.Run or after it, each refusing on its k-th invocation or never), 0..5 incoming handlers (ALL, 1, V), up to 2 handlers registered while traffic is flowing (after their message types have been seen), 0..4 EventLogon handlers, an instrumented message store failing on the k-th Save or never, and 8..24 steps (application Send through the session, application Send through the handler with its own header and a sequence number used before or 0, lowering the outgoing counter and sending again, inbound TestRequest -> Heartbeat reply, inbound damaged message -> Reject, inbound application message; in a third of the scenarios a Logout and a new Logon of the peer in the second half); everything appends to one call log. Oracle per step: the handler chain equals the registration-order prefix up to the first refusal (ALL handlers before type handlers, the session's own Save at its registration position), a message is on Outgoing() iff the chain completed, it was saved successfully under its own 34 before, Send returned an error iff it was not transmitted, the bytes each outgoing handler could serialize equal the wire bytes; inbound ALL/type handler order likewise. Modifying-handler part: an outgoing handler stamps Text and SendingTime on the message and a handler behind it records what it is shown; the transmitted bytes equal what that last handler saw and carry the stamp. Batch part: SendBatch of 2..7 prepared messages with a failing save or a refusing ALL / type handler at a drawn position: that message is not transmitted, the call returns an error, everything transmitted was saved first. Resend part: 3..8 application sends of which some are refused by an ALL / type handler registered behind the session's store handler (the store holds them, they never left), then three ResendRequests over ranges covering their numbers: a refused message is on the wire neither at the send nor on behalf of a ResendRequest. Own-logout part: Session.Logout / Session.Stop while the store fails on the Logout's save or an ALL / type-5 handler refuses it: no Logout leaves. Odd-seqnum part: inbound Heartbeats whose MsgSeqNum is missing, empty or not a number are offered to the application's all-types handler and then to its type handler like any inbound message. Removal part: the application registers 1..3 outgoing and 1..2 incoming handlers, hands one identifier back to RemoveOutgoingHandler / RemoveIncomingHandler, then 5 steps (sends and inbound TestRequests, optionally one failing save): whatever leaves was saved first, a failed save stops the message, the handlers that were not removed run in order (whether the removed one still runs is not judged). Queued part: buffered handler (4/8/16) whose Outgoing() is not read while 2..15 messages are sent (one message object re-used, optionally changed in place between sends, or fresh objects); after release every transmitted message equals what the outgoing ALL handler was shown and what the store holds under its number. distinct = scenario text; non-trivial = at least one refusal or failed save happened")
 	c.Assume("an incoming all-types handler that returns false ends the all-types chain only: the message is still offered to the handlers of its own type (the statement says every inbound message is), so the session's own replies stay due")
 	n := c.Pick(4000, 60000)
 	vk.Parallel(n, runtime.NumCPU(), func(i int) {
@@ -185,6 +185,7 @@ func main() {
 	vk.Parallel(nb, runtime.NumCPU(), func(i int) { batchScenario(c, i) })
 	vk.Parallel(c.Pick(120, 3000), runtime.NumCPU(), func(i int) { resendScenario(c, i) })
 	vk.Parallel(c.Pick(24, 480), runtime.NumCPU(), func(i int) { logoutScenario(c, i) })
+	vk.Parallel(c.Pick(16, 320), runtime.NumCPU(), func(i int) { inboundOddSeq(c, i) })
 	nr := c.Pick(400, 8000)
 	vk.Parallel(nr, runtime.NumCPU(), func(i int) { removalScenario(c, i) })
 	nq := c.Pick(300, 6000)
